@@ -432,7 +432,7 @@ theorem wrapRun_closed (E : Nat) (h1 : 1 ≤ E) (ops : List CounterOp) (v : Nat)
 
 theorem counterUpDownStep_eq (w rv v : Nat) (inc dec reset : Bool) (hw : 0 < w) (hv : v < 2 ^ w) :
     (counterUpDownStep w rv v inc dec reset).next =
-      wrapStep (2 ^ w) v (inc && !(v == 2 ^ w - 1)) (dec && !(v == 0)) reset (rv % 2 ^ w) := by
+      wrapStep (2 ^ w) v (inc && !dec && !(v == 2 ^ w - 1)) (dec && !inc && !(v == 0)) reset (rv % 2 ^ w) := by
   unfold counterUpDownStep counterCfgOfWidth
   have hp := Nat.two_pow_pos w
   rw [endM1_eq w (2 ^ w) (by omega) (Nat.le_refl _)]
@@ -445,9 +445,8 @@ theorem clampStep_nat (mx v rv : Nat) (inc dec : Bool) (hv : v ≤ mx) :
   cases inc <;> cases dec <;> simp only [Bool.false_eq_true, if_false, if_true, Bool.and_true, Bool.and_false, Bool.not_true,
     Bool.not_false, Bool.and_self] <;> (repeat' split) <;> omega
 
-/-- away from "increment and decrement together at a limit", `counterUpDown` is the saturating counter -/
-theorem counterUpDownStep_clamp (w rv v : Nat) (inc dec reset : Bool) (hw : 0 < w) (hv : v < 2 ^ w)
-    (hq : ¬ (inc = true ∧ dec = true ∧ reset = false ∧ (v = 0 ∨ v = 2 ^ w - 1))) :
+/-- `counterUpDown` is the saturating counter: the net change `inc - dec` is applied and clamped to `[0, 2^w - 1]` -/
+theorem counterUpDownStep_clamp (w rv v : Nat) (inc dec reset : Bool) (hw : 0 < w) (hv : v < 2 ^ w) :
     (counterUpDownStep w rv v inc dec reset).next = clampStep (2 ^ w - 1) v inc dec reset (rv % 2 ^ w) := by
   rw [counterUpDownStep_eq w rv v inc dec reset hw hv]
   have hM : 2 ≤ 2 ^ w := by
@@ -467,43 +466,36 @@ theorem counterUpDownStep_clamp (w rv v : Nat) (inc dec reset : Bool) (hw : 0 < 
       have hm : (v == M - 1) = false := by simp; omega
       cases inc <;> cases dec <;>
         simp only [hm, h0', Bool.false_eq_true, if_false, if_true, Bool.and_true, Bool.and_false, Bool.not_true, Bool.not_false,
-          Bool.and_self] <;> (repeat' split) <;> first | omega | (exfalso; exact hq ⟨rfl, rfl, rfl, Or.inl h0⟩)
+          Bool.and_self] <;> (repeat' split) <;> omega
     · have h0' : (v == 0) = false := by simpa using h0
       by_cases hmx : v = M - 1
       · have hm : (v == M - 1) = true := by simpa using hmx
         cases inc <;> cases dec <;>
           simp only [hm, h0', Bool.false_eq_true, if_false, if_true, Bool.and_true, Bool.and_false, Bool.not_true, Bool.not_false,
-            Bool.and_self] <;> (repeat' split) <;> first | omega | (exfalso; exact hq ⟨rfl, rfl, rfl, Or.inr hmx⟩)
+            Bool.and_self] <;> (repeat' split) <;> omega
       · have hm : (v == M - 1) = false := by simpa using hmx
         cases inc <;> cases dec <;>
           simp only [hm, h0', Bool.false_eq_true, if_false, if_true, Bool.and_true, Bool.and_false, Bool.not_true, Bool.not_false,
             Bool.and_self] <;> (repeat' split) <;> omega
   · simp [wrapStep, clampStep]
 
-/-- … and at the limits it is not: with both inputs high the counter leaves the limit -/
-theorem counterUpDownStep_both_at_max (w rv : Nat) (hw : 0 < w) :
-    (counterUpDownStep w rv (2 ^ w - 1) true true false).next = 2 ^ w - 2 := by
-  have hM : 2 ≤ 2 ^ w := by
-    calc 2 = 2 ^ 1 := rfl
-      _ ≤ 2 ^ w := Nat.pow_le_pow_right (by omega) hw
-  rw [counterUpDownStep_eq w rv _ true true false hw (by omega)]
-  unfold wrapStep
-  generalize 2 ^ w = M at *
-  have h0 : (M - 1 == 0) = false := by simp; omega
-  simp [h0]
-  rw [show M - 1 + M - 1 = (M - 2) + M by omega, Nat.add_mod_right, Nat.mod_eq_of_lt (by omega)]
+theorem clampStep_le (mx v rv : Nat) (inc dec reset : Bool) (hv : v ≤ mx) (hr : rv ≤ mx) : clampStep mx v inc dec reset rv ≤ mx := by
+  cases reset
+  · rw [clampStep_nat _ _ _ _ _ hv]; (repeat' split) <;> omega
+  · simpa [clampStep] using hr
 
-theorem counterUpDownStep_both_at_zero (w rv : Nat) (hw : 0 < w) :
-    (counterUpDownStep w rv 0 true true false).next = 1 := by
-  have hM : 2 ≤ 2 ^ w := by
-    calc 2 = 2 ^ 1 := rfl
-      _ ≤ 2 ^ w := Nat.pow_le_pow_right (by omega) hw
-  rw [counterUpDownStep_eq w rv _ true true false hw (by omega)]
-  unfold wrapStep
-  generalize 2 ^ w = M at *
-  have h0 : (0 == M - 1) = false := by simp; omega
-  simp [h0]
-  exact Nat.mod_eq_of_lt (by omega)
+theorem counterUpDownRun_eq (w rv : Nat) (hw : 0 < w) (ops : List (Bool × Bool × Bool)) (v : Nat) (hv : v < 2 ^ w) :
+    counterUpDownRun w rv v ops = clampRun (2 ^ w - 1) (rv % 2 ^ w) v ops := by
+  induction ops generalizing v with
+  | nil => rfl
+  | cons o t ih =>
+    unfold counterUpDownRun clampRun
+    simp only [List.foldl_cons]
+    rw [counterUpDownStep_clamp w rv v o.1 o.2.1 o.2.2 hw hv]
+    have hp := Nat.two_pow_pos w
+    have hr : rv % 2 ^ w < 2 ^ w := Nat.mod_lt _ hp
+    have := clampStep_le (2 ^ w - 1) v (rv % 2 ^ w) o.1 o.2.1 o.2.2 (by omega) (by omega)
+    exact ih _ (by omega)
 
 /-! ### CarrySafeAdder over a list of operands -/
 
